@@ -66,11 +66,12 @@ def mapLookup (k : Cbor) : List (Cbor × Cbor) → Option Cbor
 
 def decUints : List Cbor → Option (List Nat)
   | [] => some []
-  | .uint n :: rest => (decUints rest).map (n :: ·)
+  | .uint n :: rest => if n < 9223372036854775808 then (decUints rest).map (n :: ·) else none
   | _ :: _ => none
 
-/-- Decode a `[]int` field: an array of unsigned integers, or null (nil slice). Negative
-offsets are rejected here (the Go code would accept them and panic when slicing). -/
+/-- Decode a `[]int` field: an array of unsigned integers below 2^63 (a value that overflows Go's
+`int` is a decode error, as in the library), or null (nil slice). Negative offsets are rejected
+here (the Go code would accept them and panic when slicing: corrupt input only, see notes). -/
 def decIdx : Cbor → Option (List Nat)
   | .array xs => decUints xs
   | .simple 22 => some []
